@@ -462,3 +462,25 @@ def check_get_record(cx: Cx, ob: Ob) -> None:
             ob.violate(fn.qualname, where(fn, line), f"get_record also matches on {sorted(extra)}", detail="cover-extra")
     if not ok:
         ob.undecide("get_record has no record return")
+
+
+
+@obligation("C02-X1", "OWN (shared with C10): no function that takes a converter stores into, mutates or captures the Record objects of its input - a converter whose records are changed behind its back no longer matches its own lookup tables", floor=6)
+def x1(cx: Cx, ob: Ob) -> None:
+    from .c10 import check_no_aliasing
+
+    check_no_aliasing(cx, ob)
+
+
+@obligation("C02-X2", "state closure (shared with C05): all derived converter state is maintained by _index, lookup tables are never rebound after construction, and no query method writes converter state (no stale caches)", floor=5)
+def x2(cx: Cx, ob: Ob) -> None:
+    from ..rules import state_closure
+
+    state_closure(cx, ob)
+
+
+@obligation("C02-X3", "no memoised derived values (cached_property / lru_cache) on Record, Reference or Converter objects, which are changed in place or copied with updates", floor=3)
+def x3(cx: Cx, ob: Ob) -> None:
+    from ..rules import cached_derivations
+
+    cached_derivations(cx, ob)
